@@ -76,6 +76,7 @@ inductive ErrClass where
   | connectionReset       -- builtin ConnectionResetError (OSError)
   | remoteDisconnected    -- http.client.RemoteDisconnected (ConnectionResetError + BadStatusLine)
   | badStatusLine         -- http.client.BadStatusLine (HTTPException)
+  | socketTimeout         -- builtin TimeoutError (`socket.timeout`, an OSError) as raised by the socket itself
   deriving DecidableEq, Repr, Inhabited
 
 inductive Err where
@@ -354,7 +355,7 @@ inductive ConnKind where
   | refused      -- any other OSError while connecting  → NewConnectionError
   deriving DecidableEq, Repr, Inhabited
 
-/-- what goes wrong after the request has been written (while waiting for the status line) -/
+/-- what goes wrong after the request has been written completely (while waiting for the status line) -/
 inductive ReadKind where
   | timeout      -- socket timeout                      → ReadTimeoutError (`_raise_timeout`)
   | reset        -- ConnectionResetError
@@ -362,8 +363,27 @@ inductive ReadKind where
   | garbage      -- not an HTTP status line             → http.client.BadStatusLine
   deriving DecidableEq, Repr, Inhabited
 
+/-- what goes wrong while the request is being written to the socket — after the head (and body) may
+already have reached the server.  `_make_request`:
+```
+try:
+    conn.request(method, url, body=body, headers=headers, ...)
+except BrokenPipeError:
+    pass
+except OSError as e:
+    if e.errno != errno.EPROTOTYPE and e.errno != errno.ECONNRESET:
+        raise
+```
+and then, for the swallowed ones, `conn.getresponse()` on the dead connection. -/
+inductive SendKind where
+  | timeout      -- socket.timeout from `send` (errno None): re-raised, reaches `urlopen`'s handler as TimeoutError
+  | reset        -- ConnectionResetError(ECONNRESET) from `send`: swallowed; reading the response is reset as well
+  | pipe         -- BrokenPipeError from `send`: swallowed; reading the response finds EOF (RemoteDisconnected)
+  deriving DecidableEq, Repr, Inhabited
+
 inductive Outcome where
   | connectError (k : ConnKind)
+  | sendError (k : SendKind)
   | readError (k : ReadKind)
   | otherError                                  -- ssl.SSLError while reading → urllib3 SSLError
   | response (status : Nat) (retryAfter : Option Nat)      -- a reply without a `Location` header
@@ -408,6 +428,10 @@ structure Raised where
 def raised : Outcome → Raised
   | .connectError .timeout => ⟨.connectTimeout, true, false, true⟩
   | .connectError .refused => ⟨.newConnection, true, false, true⟩
+  -- the socket is open (and `has_connected_to_proxy` set) when `send` fails; `socket.timeout` is an OSError
+  | .sendError .timeout => ⟨.socketTimeout, true, true, false⟩
+  | .sendError .reset => ⟨.connectionReset, true, true, false⟩       -- raised by `getresponse` after the swallow
+  | .sendError .pipe => ⟨.remoteDisconnected, true, true, false⟩     -- raised by `getresponse` after the swallow
   | .readError .timeout => ⟨.readTimeout, true, false, false⟩
   | .readError .reset => ⟨.connectionReset, true, true, false⟩
   | .readError .eof => ⟨.remoteDisconnected, true, true, false⟩
